@@ -10,6 +10,16 @@ CLAIMED = {
    text='C01_lazy_eq_staged_* are proved for every chain of row-phase machines and every event stream; C01_dispatch_total says no link falls through; regrouping and always-true conditionals are spliced in place. The tie to the code: every kind of link object is pushed through the real Flow and compared with classify; random pipelines run on the real lazy engine are compared with the model staged fold; and the property itself (lazy = step-by-step, regrouping, three APIs) is checked on the real code alone, incl. user callables of every kind and in-place mutators after retaining steps.',
    note='object aliasing is not modelled (probed by mutator scenarios); user callables are sampled from a fixed zoo',
    ref='6/C01'),
+ 'C04': dict(
+   technique='Lean 4 proof (exception funnel: every fault position/class ends in ProcessorError with the original cause; no commit effect after a failure) + fault correspondence + fault matrix on real code',
+   text='C04_propagates_* / C04_never_ok are proved for every chain length, fault position, phase and exception class over the model of _process/safe_process; C04_no_commit_after_failure for every pair of machines whose commits are epilogue effects. The model is tied to the code by the fault correspondence; the property is checked on the real code over a fault matrix (kind x class x position x API) with observers placed after the fault, poisoned rows for built-ins, and upstream failures reaching parallelize in a subprocess under a time limit.',
+   note='generator finalisation is CPython behaviour; a failing source iterator is re-wrapped by datapackage (identity of the cause is required for failures raised by steps); parallelize row-function failures inside workers are ignored by design and not steps',
+   ref='6/C04'),
+ 'C05': dict(
+   technique='Lean 4 proof (observer transparent; observer log = full staged stream at its position for every suffix, corollary of the fusion theorem; no-abandon demand theorem) + observe correspondence + byte-level capture oracle',
+   text='C05_transparent / C05_complete / C05_finalizer_once_last hold for every prefix, suffix and stream; C05_complete_demand shows that without an abandoning step every upstream resource is pulled to exhaustion. On the real code, every observer kind is inserted before discarding suffixes and what it persisted is compared byte-for-byte with the same observer run with nothing after it; downstream results are compared with the pipeline without the observer.',
+   note='the Draining hypothesis on user code downstream is a hypothesis, as it must be; treatment tables of built-ins are models by inspection tied by the capture oracle',
+   ref='6/C05'),
  'C06': dict(
    technique='Lean 4 proof (trace shape of row-wise chains: look-ahead <= S-1 for every stream length; row-wise closed under composition) + trace correspondence + counting-source oracle',
    text='C06_lookahead: in the lazy run of any chain of machines that release nothing at exhaustion, a row derived from source item j is delivered when at most max(j+1, min S n) items have been read, for all n, S; tied to the code by comparing the real pull/deliver interleaving of counting sources and sinks with the model trace, and by measuring the look-ahead at several lengths up to 1e5 (thorough).',
